@@ -399,6 +399,25 @@ def check_iterable_consumed(eng, run):
             run.finding("C04.acct", fn, _stmt_of(fn, c), f"{why}: the chunks behind it never reach the wire although the call reports success")
         run.ob("C04.acct", f"{fn.module.name.split('.')[-2]}.{fn.short}:every-chunk-consumed", not probs, uses=len(uses))
     run.floor("C04.acct functions consuming an iterable of chunks", n, 4)
+    # the same confusion anywhere on the way from the protocol to the wire: a loop that pulls chunks with `next(it, <default>)` and
+    # stops on a *falsy* result (`while chunk := next(chunks, None):`) ends at the first empty chunk
+    m = 0
+    for fn in eng.db.all_functions():
+        if isinstance(fn.node, ast.Lambda) or not fn.module.name.startswith(("easynetwork.lowlevel", "easynetwork.protocol", "easynetwork.serializers.abc", "easynetwork.clients")):
+            continue
+        for w in own_nodes(fn.node):
+            if not isinstance(w, ast.While):
+                continue
+            t = w.test
+            while isinstance(t, ast.UnaryOp) and isinstance(t.op, ast.Not):
+                t = t.operand
+            leaves = t.values if isinstance(t, ast.BoolOp) else [t]
+            for lf in leaves:
+                if isinstance(lf, ast.NamedExpr) and isinstance(lf.value, ast.Call) and (dotted(lf.value.func) or "") == "next" and len(lf.value.args) == 2:
+                    m += 1
+                    run.finding("C04.acct", fn, w, f"`{ast.unparse(w.test)[:60]}` ends the loop on a falsy element: an empty chunk produced in the middle of a packet is taken for the end of "
+                                "the chunk iterator and everything behind it is never sent, although the send reports success")
+    run.ob("C04.acct", "no-truthiness-terminated-chunk-loops", m == 0)
 
 
 def _stmt_of(fn, node):
@@ -571,6 +590,8 @@ def _nest_tls_locks(fn):
     h = find_handler(fn, "_ssl_module.SSLWantReadError")
     inner = next(t for t in h.body if isinstance(t, ast.Try))
     first, second = inner.body
+    if isinstance(first, ast.If):  # `if self._write_bio.pending:` around the flush (since the F10 fix): the mutant takes the lock unconditionally
+        first = first.body[0]
     first.body.append(second)
     inner.body = [first]
 
